@@ -800,6 +800,12 @@ pub fn execute_buy_listing(
         },
     )?;
 
+    // A Bucket received as sale proceeds may still carry the Community Pool fee of that sale.
+    // It is about to be replaced by the fee of this purchase, so it is paid to the Community Pool now
+    if let Some(pending_fee) = &the_bucket.fee_amount {
+        res = res.add_message(pending_fee.get_cp_msg(env.contract.address.clone())?);
+    }
+
     res = res
         .add_attribute("action", "buy_listing")
         .add_attribute("bucket_used", bucket_id.to_string())
